@@ -1,32 +1,32 @@
-\* documented counterexample: core/conf describing a map[string]Struct by its element field table (seeded defect class)
+\* documented counterexample: ParseHeaders indexing the first value of a header whose list of values is empty (seeded defect class) violates InvNoPanic
 SPECIFICATION ISpec
 CONSTANTS
-  Sources = {"conf"}
-  Wraps = {"map"}
-  Kinds = {"int"}
-  AOpts = {"none", "plain"}
-  Defs = {"none", "in"}
+  Sources = {"form", "header"}
+  Wraps = {"flat"}
+  Kinds = {"int", "strs"}
+  AOpts = {"plain"}
+  Defs = {"none"}
   Rngs = {"none"}
   Opts = {"none"}
   FSs = {FALSE}
   Ptrs = {FALSE}
   BIds = {"nob"}
-  XKs = {""}
+  XKs = {"", "zz"}
   Rich = FALSE
   Edges = FALSE
-  KSps = {"lower", "cap"}
-  MKs = {"k", "a", "A", "M"}
+  KSps = {"lower"}
+  MKs = {"k"}
   Unit = 2
-  Multi = FALSE
-  XVs = {"one"}
+  Multi = TRUE
+  XVs = {"one", "none"}
   Depth = 1
   Emit = FALSE
   DropOnRebuild = FALSE
   CanonBang = FALSE
   WideParse = FALSE
-  MapAsStruct = TRUE
+  MapAsStruct = FALSE
   RoundFirst = FALSE
-  IndexFirst = FALSE
+  IndexFirst = TRUE
 INVARIANTS InvNoPanic InvCompleteness InvSoundness InvValues InvHistoryIndependent InvClassesDisjoint
 VIEW GView
 CHECK_DEADLOCK FALSE
